@@ -4,7 +4,24 @@ import json, os, re
 H = os.path.dirname(os.path.dirname(os.path.abspath(__file__)))
 T = os.path.join(H, 'tools')
 base = open(os.path.join(T, 'DESIGN.base.md')).read()
-base = base.replace('@@AS_BUILT@@', open(os.path.join(T, 'as_built_0.md')).read().rstrip())
+def cost_table():
+    rows = ['| check | obligations | paths | solver queries | solver s | cpu s | wall s |', '|---|---|---|---|---|---|---|']
+    tot = [0, 0, 0, 0.0, 0.0, 0.0]
+    for i in range(1, 20):
+        pid = 'C%02d' % i
+        fp = os.path.join(H, 'evidence', pid + '.json')
+        if not os.path.exists(fp):
+            continue
+        e = json.load(open(fp))
+        c = e['coverage']
+        vals = [c.get('obligations', 0), c.get('states', 0), c.get('solver_queries', 0), c.get('solver_time_s', 0), c.get('cpu_s', 0), e.get('wall_s', 0)]
+        rows.append('| %s | %d | %d | %d | %.0f | %.0f | %.0f |' % tuple([pid] + vals))
+        tot = [a + b for a, b in zip(tot, vals)]
+    rows.append('| total | %d | %d | %d | %.0f | %.0f | %.0f |' % tuple(tot))
+    return '\n'.join(rows)
+
+
+base = base.replace('@@AS_BUILT@@', open(os.path.join(T, 'as_built_0.md')).read().rstrip().replace('@@COST_TABLE@@', cost_table()))
 # per-property as-built paragraphs
 props = {}
 cur = None
